@@ -4,6 +4,8 @@ C09 — system simulations are transparent: nesting does not change behaviour.
 on the mechanically flattened configuration)
 -/
 import TickitModel.Lemmas.FlattenMain
+import TickitModel.Lemmas.FlattenFuelBound
+import TickitModel.Lemmas.FlattenCorr
 import TickitModel.Lemmas.FlattenCex
 
 namespace Tickit
@@ -40,8 +42,24 @@ theorem nesting_transparent_initial (S : Static) (hS : S.Valid) (orc : Oracle) (
     (hr : S.ResolveStable rfuel) (t0 : SimTime) (now : Int)
     (m : MasterSt) (tr : TickRec) (h : masterInitial S orc fuel t0 now = .ok (m, tr)) :
     ∃ fuel' m' tr', masterInitial (S.flatten rfuel) orc fuel' t0 now = .ok (m', tr') ∧
+      ∀ d, ObsEq (m.sim.obsOf d) (m'.sim.obsOf d) := by
+  obtain ⟨m', tr', h1, h2⟩ := nesting_transparent_initial_core S hS orc fuel rfuel hr t0 now m tr h
+  exact ⟨1, m', tr', h1, h2⟩
+
+/-- **a computable sufficient resolution fuel**: the number of (level, component) pairs, plus the
+number of levels, plus one (`Static.resolveFuel`).  Every step of a resolution chain sits at a
+(level, component) pair and, in a valid configuration, no pair is visited twice. -/
+theorem resolveFuel_sufficient (S : Static) (hS : S.Valid) (rfuel : Nat) (hr : S.resolveFuel ≤ rfuel) :
+    S.ResolveStable rfuel :=
+  hS.resolveStable hr
+
+/-- **C09, initial tick**, with the computable fuel bound. -/
+theorem nesting_transparent_initial_fuel (S : Static) (hS : S.Valid) (orc : Oracle) (fuel rfuel : Nat)
+    (hr : S.resolveFuel ≤ rfuel) (t0 : SimTime) (now : Int)
+    (m : MasterSt) (tr : TickRec) (h : masterInitial S orc fuel t0 now = .ok (m, tr)) :
+    ∃ fuel' m' tr', masterInitial (S.flatten rfuel) orc fuel' t0 now = .ok (m', tr') ∧
       ∀ d, ObsEq (m.sim.obsOf d) (m'.sim.obsOf d) :=
-  nesting_transparent_initial_core S hS orc fuel rfuel hr t0 now m tr h
+  nesting_transparent_initial S hS orc fuel rfuel (hS.resolveStable hr) t0 now m tr h
 
 /-- **C09, whole run (callbacks).**  Continuing both simulations for the same number of callback
 ticks (no external stimuli), the tick times coincide and every device keeps making the same
@@ -55,6 +73,14 @@ theorem nesting_transparent_run (S : Static) (hS : S.Valid) (orc : Oracle) (fuel
       masterRun (S.flatten rfuel) orc fuel' sp steps nTicks m' [] [tr'] = .ok (m2', ticks') ∧
       ticks.map (·.time) = ticks'.map (·.time) ∧ ticks.map (·.real) = ticks'.map (·.real) ∧
       ∀ d, ObsEq (m2.sim.obsOf d) (m2'.sim.obsOf d) := by
-  sorry
+  obtain ⟨m', tr', h', _⟩ := nesting_transparent_initial_core S hS orc fuel rfuel hr t0 now m tr h
+  have hc := corr_initial hS hr h h'
+  obtain ⟨c1, c2, c3, c4, c5⟩ := masterInitial_clock h
+  obtain ⟨c1', c2', c3', c4', c5'⟩ := masterInitial_clock h'
+  obtain ⟨m2', ticks', hrun, ht, hre, hc2⟩ := masterRun_corr hS hr sp steps nTicks m m' [tr] [tr'] hc
+    ⟨c1.trans c1'.symm, c2.trans c2'.symm, c3.trans c3'.symm⟩ (by simp [c4, c4']) (by simp [c5, c5'])
+    m2 ticks h2
+  exact ⟨1, m', tr', m2', ticks', h', hrun, ht, hre, hc2.obs⟩
+
 
 end Tickit
